@@ -255,6 +255,16 @@ func init() {
 			fmt.Sprintf("%s/items?pattern=%s", base, url.QueryEscape(filepath.Dir(dir)+"/*")),
 			fmt.Sprintf("%s/files?pattern=%s", base, url.QueryEscape(dir+"/*")),
 			fmt.Sprintf("%s/view?file=%s&retention=-1&from=%s&until=%s&now=%s", base, url.QueryEscape(rel+".missing"), ts(0), ts(now), ts(now)),
+			// requests that fail, each in its own way (bad parameter, archive out of range, bad
+			// timestamp, unreadable path): concurrent failures must not see each other's answers
+			fmt.Sprintf("%s/view?file=%s&retention=abc&from=%s&until=%s&now=%s", base, url.QueryEscape(rel), ts(0), ts(now), ts(now)),
+			fmt.Sprintf("%s/view?file=%s&retention=7&from=%s&until=%s&now=%s", base, url.QueryEscape(rel), ts(0), ts(now), ts(now)),
+			fmt.Sprintf("%s/view?file=%s&retention=-1&from=yesterday&until=%s&now=%s", base, url.QueryEscape(rel), ts(now), ts(now)),
+			fmt.Sprintf("%s/view?file=%s&retention=-1&from=%s&until=%s&now=%s", base, url.QueryEscape(dir), ts(0), ts(now), ts(now)),
+			fmt.Sprintf("%s/view-raw?file=%s&retention=x", base, url.QueryEscape(rel)),
+			fmt.Sprintf("%s/view-raw?file=%s&retention=9", base, url.QueryEscape(rel)),
+			fmt.Sprintf("%s/sum?item=%s&pattern=%s&retention=5&from=%s&until=%s&now=%s", base, url.QueryEscape(dir), url.QueryEscape("*"), ts(0), ts(now), ts(now)),
+			fmt.Sprintf("%s/sum?item=%s&pattern=%s&retention=zz&from=%s&until=%s&now=%s", base, url.QueryEscape(dir), url.QueryEscape("*"), ts(0), ts(now), ts(now)),
 		}
 		get := func(u string) string {
 			resp, err := http.Get(u)
@@ -275,10 +285,12 @@ func init() {
 			wg.Add(1)
 			go func(g int) {
 				defer wg.Done()
-				for j := range urls {
-					i := (j + g) % len(urls)
-					if get(urls[i]) != seq[i] {
-						atomic.AddInt32(&bad, 1)
+				for round := 0; round < 3; round++ {
+					for j := range urls {
+						i := (j*(g%3+1) + g) % len(urls)
+						if get(urls[i]) != seq[i] {
+							atomic.AddInt32(&bad, 1)
+						}
 					}
 				}
 			}(g)
@@ -369,5 +381,48 @@ func init() {
 			}
 		}
 		s.obs("waitopen differing=%d", differing)
+	})
+}
+
+func init() {
+	// childhold NAME : while a handle (default options) is open the process starts a child that
+	// outlives the handle; after Close a new Open must succeed at once — the lock lives exactly as
+	// long as the handle, not as long as some child that happened to be started meanwhile
+	// (descriptors must not be inherited).
+	register("childhold", func(s *sess, tk []string) {
+		f := s.file(tk[1])
+		s.closeAll()
+		a, err := wt.Open(f.path)
+		if err != nil {
+			s.obs("childhold openerr")
+			return
+		}
+		child := exec.Command("sleep", "2")
+		if err := child.Start(); err != nil {
+			a.Close()
+			must(err)
+		}
+		defer func() { child.Process.Kill(); child.Wait() }()
+		a.Close()
+		done := make(chan error, 1)
+		go func() {
+			b, err := wt.Open(f.path)
+			if err == nil {
+				b.Close()
+			}
+			done <- err
+		}()
+		select {
+		case err := <-done:
+			if err != nil {
+				s.obs("childhold reopen=err")
+			} else {
+				s.obs("childhold reopen=ok")
+			}
+		case <-time.After(800 * time.Millisecond):
+			s.obs("childhold reopen=blocked-until-the-child-exits")
+			child.Process.Kill()
+			<-done
+		}
 	})
 }
